@@ -44,13 +44,19 @@ def run(res, tier):
                 "other settings untouched. distinct by (geometry, sequence)")
     res.trusted += ["numpy/scipy determinism; the placement of points is a function of skeleton and settings only is *checked* here, not proved"]
     rng = vlib.rng("C15")
-    nseq = 6 if tier == "quick" else 30
+    nseq = 9 if tier == "quick" else 34
     cases = []
     fixed = [("cdn", {}, [{"nonorthogonal_target_all_poloidal_spacing_length": 0.3}, {"nonorthogonal_target_all_poloidal_spacing_length": 0.15},
                           {"nonorthogonal_xpoint_poloidal_spacing_range": 0.02}]),
              ("cdn", {}, [{"nonorthogonal_radial_range_power": 3.0}, {}]),
              ("cdn", {}, [{"nonorthogonal_spacing_method": "poloidal_orthogonal_combined"}]),
-             ("cdn", {"nonorthogonal_spacing_method": "poloidal_orthogonal_combined"}, [{"nonorthogonal_xpoint_poloidal_spacing_length": 0.1}, {}])]
+             ("cdn", {"nonorthogonal_spacing_method": "poloidal_orthogonal_combined"}, [{"nonorthogonal_xpoint_poloidal_spacing_length": 0.1}, {}]),
+             # the method stays, only a spacing length changes (the separatrix distribution depends on it for this method)
+             ("cdn", {"nonorthogonal_spacing_method": "poloidal_orthogonal_combined"},
+              [{"nonorthogonal_spacing_method": "poloidal_orthogonal_combined", "nonorthogonal_xpoint_poloidal_spacing_length": 0.1}]),
+             # the same settings twice, and a return to the initial method after another one
+             ("cdn", {}, [{"nonorthogonal_radial_range_power": 3.0}, {"nonorthogonal_radial_range_power": 3.0}]),
+             ("cdn", {}, [{"nonorthogonal_spacing_method": "poloidal_orthogonal_combined"}, {"nonorthogonal_spacing_method": "combined"}])]
     for g, o0, seq in fixed:
         cases.append((g, o0, seq))
     while len(cases) < nseq:
@@ -83,9 +89,6 @@ def run(res, tier):
             res.extra.setdefault("refused", []).append([t[:200], str((A["error"] or B["error"])[:2])[:160], "sequence" if A["error"] else "fresh"])
             continue
         va, vb = A["vars"], B["vars"]
-        worst = 0.0
-        for suf in ("", "_xlow", "_ylow", "_corners", "_lower_right_corners", "_upper_right_corners", "_upper_left_corners"):
-            worst = max(worst, float(np.max(np.hypot(va["Rxy" + suf] - vb["Rxy" + suf], va["Zxy" + suf] - vb["Zxy" + suf]))))
         # boundary (guard) cells beyond the targets
         guard = np.zeros(va["Rxy"].shape, bool)
         ng = int(A["spec"]["options"].get("y_boundary_guards", 0))
@@ -95,6 +98,11 @@ def run(res, tier):
                 guard[sx, sy.start:sy.start + ng] = True
             if ng and r["connections"].get("upper") is None:
                 guard[sx, sy.stop - ng:sy.stop] = True
+        worst, pos_bad = 0.0, np.zeros(va["Rxy"].shape, bool)
+        for suf in ("", "_xlow", "_ylow", "_corners", "_lower_right_corners", "_upper_right_corners", "_upper_left_corners"):
+            dd = np.hypot(va["Rxy" + suf] - vb["Rxy" + suf], va["Zxy" + suf] - vb["Zxy" + suf])
+            worst = max(worst, float(np.max(dd)))
+            pos_bad |= dd > 2e-7
         wf, wname, wguard = 0.0, "", False
         for name in FIELDS:
             for suf in ("", "_xlow", "_ylow"):
@@ -110,8 +118,11 @@ def run(res, tier):
                         wguard = bool(bad.any() and not (bad & ~guard).any())
         res.extra.setdefault("worst", {})[t[:160]] = {"position_m": worst, "field_rel": wf, "field": wname}
         if worst > 2e-7:
-            res.violation("history-positions:%s" % ("method-change" if any("nonorthogonal_spacing_method" in s for s in seq) else "numeric"),
-                          "%s: after the sequence the grid differs from a mesh built from scratch with the final settings by %.2e m" % (t, worst),
+            only_guard = not (pos_bad & ~guard).any()
+            res.violation("history-positions:%s" % ("target-guard-cells-only" if only_guard else
+                                                    "method-change" if any("nonorthogonal_spacing_method" in s for s in seq) else "numeric"),
+                          "%s: after the sequence the grid differs from a mesh built from scratch with the final settings by %.2e m%s"
+                          % (t, worst, " — only at points of the boundary cells beyond the targets" if only_guard else ""),
                           {"geometry": g, "initial": o0, "sequence": seq})
         elif wf > 1e-5:
             res.violation("history-fields:%s:%s" % (wname, "target-guard-cells-only" if wguard else "domain"),
